@@ -1059,7 +1059,17 @@ fn failed_draw_check(image: &Image, h: usize, w: usize) -> Option<Finding> {
         return None;
     }
     let expected_payload = ((h * w * 4).div_ceil(3) * 4) as u64;
-    for k in [0usize, 1, 20, 60, 4300] {
+    // where a complete draw ends: the sink also fails at every offset of the last 70 bytes (inside and around the
+    // placement command that follows the pixel data)
+    let total = {
+        let mut all = vec![];
+        let mut fresh = KittyImageHandler::new();
+        let _ = catch(|| fresh.draw(&mut all, image, Position::new(1, 2)));
+        all.len()
+    };
+    let mut offsets = vec![0usize, 1, 20, 60, 4300];
+    offsets.extend(total.saturating_sub(70)..total);
+    for k in offsets {
         let mut handler = KittyImageHandler::new();
         let mut failing = FailAfter(k, ControlSink::default());
         let first = catch(|| handler.draw(&mut failing, image, Position::new(1, 2)).is_ok());
@@ -1068,8 +1078,24 @@ fn failed_draw_check(image: &Image, h: usize, w: usize) -> Option<Finding> {
             Ok(true) => continue, // everything fitted: not a failed draw
             Ok(false) => {}
         }
-        // the whole pixel data (and the end of its last command) got through before the sink failed: the image IS transmitted
+        // the whole pixel data (and the end of its last command) got through before the sink failed: the image IS
+        // transmitted, and "at most once per handler" means the next draw does not send the pixels again
         if failing.1.closed_payload_bytes == expected_payload {
+            let mut sink = ControlSink::default();
+            match catch(|| handler.draw(&mut sink, image, Position::new(1, 2)).is_ok()) {
+                Err(p) => return Some(Finding { key: format!("failed-draw:{}", p.key()), what: format!("draw after a failed draw panicked: {}", p.message) }),
+                Ok(false) => return Some(Finding { key: "failed-draw:second-draw-error".into(), what: format!("draw into a working sink failed after an earlier draw had failed after {k} bytes") }),
+                Ok(true) => {}
+            }
+            if sink.payload_bytes != 0 {
+                return Some(Finding {
+                    key: "failed-draw:transmitted-twice".into(),
+                    what: format!(
+                        "the first draw of a {h}x{w} image delivered all {expected_payload} payload bytes before its sink failed after {k} bytes (inside what follows the pixel data); the next draw on the same handler transmitted {} payload bytes again",
+                        sink.payload_bytes
+                    ),
+                });
+            }
             continue;
         }
         let mut sink = ControlSink::default();
@@ -1090,6 +1116,60 @@ fn failed_draw_check(image: &Image, h: usize, w: usize) -> Option<Finding> {
         }
     }
     None
+}
+
+/// A pixel buffer that is recycled: image X over a buffer is drawn, an error response evicts it, X is dropped, the
+/// buffer (uniquely owned again) is repainted and wrapped into a new image Y of the same shape - same allocation,
+/// same shape, other content. Y must be transmitted under its own id, placed under that id, and erased under it.
+fn recycled_buffer_check() -> Vec<Finding> {
+    use std::sync::Arc;
+    let mut findings = vec![];
+    for evict in [true, false] {
+        let px = |k: usize| -> Arc<[RGBA]> { (0..6).map(|i| { let p = pixel(k + i); RGBA::new(p[0], p[1], p[2], p[3]) }).collect() };
+        let mut data = px(500);
+        let shape = Shape::from(Size::new(2, 3));
+        let mut handler = KittyImageHandler::new();
+        let r = catch(|| -> Option<String> {
+            let x = Image::from_parts(data.clone(), shape);
+            let mut out = vec![];
+            handler.draw(&mut out, &x, Position::new(0, 0)).ok()?;
+            let idx = first_cmd(&out, b'p')?.uint(b'i')? as u64;
+            if evict {
+                let mut said = vec![];
+                handler.handle(&mut said, &TerminalEvent::KittyImage { id: idx, placement: None, error: Some("ENOENT:gone".into()) }).ok()?;
+            }
+            drop(x);
+            let Some(slot) = Arc::get_mut(&mut data) else {
+                // the handler keeps the buffer alive: it cannot be recycled, nothing to check
+                return None;
+            };
+            for (dst, src) in slot.iter_mut().zip(px(900).iter()) {
+                *dst = *src;
+            }
+            let y = Image::from_parts(data.clone(), shape);
+            let at = Position::new(0, 1);
+            let mut out = vec![];
+            handler.draw(&mut out, &y, at).ok()?;
+            let sent = first_cmd(&out, b't').and_then(|c| c.uint(b'i')).map(|v| v as u64);
+            let put = first_cmd(&out, b'p').and_then(|c| c.uint(b'i')).map(|v| v as u64);
+            let mut out = vec![];
+            handler.erase(&mut out, &y, Some(at)).ok()?;
+            let del = first_cmd(&out, b'd').and_then(|c| c.uint(b'i')).map(|v| v as u64);
+            if put.is_none() || sent != put || del != put || put == Some(idx) {
+                return Some(format!(
+                    "an image drawn as i={idx}{}, dropped, its buffer repainted in place and wrapped into a new image of the same shape: the new image is transmitted as i={:?}, placed as i={:?} and erased as i={:?} (expected one id, different from {idx}, in all three)",
+                    if evict { ", evicted by an error response" } else { "" }, sent, put, del
+                ));
+            }
+            None
+        });
+        match r {
+            Err(p) => findings.push(Finding { key: format!("recycled-buffer:{}", p.key()), what: format!("panicked: {}", p.message) }),
+            Ok(Some(what)) => findings.push(Finding { key: "recycled-buffer:ids-disagree".into(), what }),
+            Ok(None) => {}
+        }
+    }
+    findings
 }
 
 /// Volume: `count` distinct opaque images of `side` x `side` pixels are drawn on one handler, then all of them
@@ -1357,6 +1437,9 @@ pub fn run(ctx: &Ctx) -> Result<Report, String> {
         }
         volume_report.push(json!({"images": count, "side": side, "payload_bytes_seen": bytes}));
     }
+    for f in recycled_buffer_check() {
+        viol.add(f.key.clone(), f.what.clone(), json!({"sub": "recycled-buffer"}));
+    }
     let extra_hist = (pixel_cases.len() + sizes.len()) as u64;
     let extra_ops = extra_hist * MINI.len() as u64;
 
@@ -1462,6 +1545,12 @@ pub fn replay(w: &Value) -> Result<(bool, String), String> {
                 text.push_str(&format!("  VIOLATION [{}]: {}\n", f.key, f.what));
             }
             if let Some(f) = failed_draw_check(&env.imgs[0].image, env.imgs[0].h, env.imgs[0].w) {
+                bad = true;
+                text.push_str(&format!("  VIOLATION [{}]: {}\n", f.key, f.what));
+            }
+        }
+        "recycled-buffer" => {
+            for f in recycled_buffer_check() {
                 bad = true;
                 text.push_str(&format!("  VIOLATION [{}]: {}\n", f.key, f.what));
             }
